@@ -1059,6 +1059,7 @@ def check_C11(rep, fl):
     # the estimator is emptied by TinyLFU::clear (how it ages between clears is C13's)
     props_store.keep_sites(rep, fl, props_sketch.check_tinylfu, ("clear",))
     props_sketch.check_reset_complete(rep, fl, "R11.2", only=("policy::SampledLFU",))
+    props_sketch.check_policy_reset(rep, fl, "R11.2")
     # "keys re-used after the clear with a different TTL or none": clear() leaves the expiry index as it is, so a key
     # that is filed again must replace what the index still holds for it (key -> conflict, overwritten, not kept)
     props_store.check_em_insert(rep, fl)
